@@ -27,7 +27,8 @@ REQUIRED_MONITORS = ["matches_documented_rotation", "rotation_invariance", "inve
                      "orientation_inert_in_1d"]
 REQUIRED_BUCKETS = {"quick": ["jitter:0", "jitter:1", "jitter:2", "jitter:3", "size_pd:0", "size_pd:>=2",
                               "angle:theta0", "angle:theta90", "angle:theta180", "angle:near360", "asymmetric",
-                              "symmetric", "lane:asan", "angle_without_loop_slot"]}
+                              "symmetric", "lane:asan", "angle_without_loop_slot",
+                              "mesh>100:size-innermost"]}
 REQUIRED_BUCKETS["thorough"] = REQUIRED_BUCKETS["quick"]
 
 
@@ -102,6 +103,20 @@ def run_oriented(case, rec):
         w = min(float(rng.uniform(0.05, 0.2)), 0.9*room/2.0)
         if w > 0:
             sas.add_pd(pars, p, ["gaussian", "schulz", "lognormal"][int(rng.integers(3))], int(rng.integers(2, 4)), w, 2.0)
+    # a long size distribution as the innermost loop of a mesh with more than 100 points: the compiled kernel is
+    # re-entered every 100 points, i.e. in the middle of the size loop with the jitter angles unchanged
+    if k % 4 == 3 and sizes and nj >= 1 and nj + max(ns, 1) <= i.parameters.max_pd:
+        p = sizes[0]
+        lo, hi = p.limits
+        v = pars[p.name]
+        room = min(abs(v - lo), abs(hi - v))/abs(v)
+        w = min(float(rng.uniform(0.05, 0.2)), 0.9*room/2.0)
+        if w > 0:
+            sas.add_pd(pars, p, "gaussian", int(rng.choice([27, 35, 41, 53])), w, 2.0)
+            for a in jit:
+                pars[a + "_pd_n"] = max(int(pars[a + "_pd_n"]), 3)
+            ns = max(ns, 1)
+            rec.bucket("mesh>100:size-innermost")
     rec.bucket("size_pd:0" if ns == 0 else "size_pd:>=2" if ns >= 2 else "size_pd:1")
     qx, qy = sas.q_points_2d(i, pars, 6, rng)
     qx[0], qy[0] = abs(qx[0]) + 1e-4, 0.0        # on the axes
